@@ -216,11 +216,34 @@ def installed(rec, stdin=None, fake_subprocess=None, prompt_events=True):
                 name = missing.name()
                 nb = [f.name() for f in needed_by]
                 rec.emit(('P', name, nb))
+                # what the question shows the user as "needed by" must be those very lines
+                try:
+                    want = sorted({(f.form().instance() or '', f.form().full_description(), f.base_name()) for f in needed_by})
+                except Exception:
+                    want = None
+                inner_input = hb.input
+                seen_first = []
+
+                def spy(prompt_text=''):
+                    if not seen_first and want is not None:
+                        seen_first.append(1)
+                        import re as _re
+                        got = set()
+                        for ln in str(prompt_text).split('\n'):
+                            m_ = _re.match(r" \* (?:Instance '(.+?)' of )?(.+), line '(.+)'$", ln)
+                            if m_:
+                                got.add((m_.group(1) or '', m_.group(2), m_.group(3)))
+                        if 'Additional input is needed by' in str(prompt_text) and sorted(got) != want:
+                            rec.emit(('PQ', name, [list(x) for x in sorted(got - set(want))][:3], [list(x) for x in sorted(set(want) - got)][:3]))
+                    return inner_input(prompt_text)
+                hb.input = spy
                 try:
                     res = orig_prompt(missing, needed_by)
                 except BaseException as e:
                     rec.emit(('PX', name, type(e).__name__))
                     raise
+                finally:
+                    hb.input = inner_input
                 value, supplied = res
                 rec.emit(('PR', name, ['answer', value] if supplied else ['refuse']))
                 return res
